@@ -3,6 +3,19 @@ package main
 func buildProperties() []Property {
 	return []Property{
 		{
+			ID: "C07", Title: "Arithmetic is exact or raises an evaluation error; comparisons are numeric",
+			Decides:    "integer evaluables never route through float64; full-range + - * neg are paired with an int_overflow branch; / % divisors and shift counts are guarded; float->integer conversions are range-guarded with the actual constants; the 2x2 type dispatch of the six comparison predicates and of the mixed-mode arithmetic computes the operator the ISO name prescribes.",
+			NotDecided: "value correctness of guards that are present but wrong (the sign error in mulF/divF, O2), IEEE results of the float functions, deeper expression trees.",
+			Rules: []RuleDef{
+				{"R-INT-EXACT", 10, ruleIntExact},
+				{"R-OVERFLOW-GUARD", 5, ruleOverflowGuard},
+				{"R-DIV-GUARD", 3, ruleDivGuard},
+				{"R-SHIFT-GUARD", 2, ruleShiftGuard},
+				{"R-FTOI-RANGE", 4, ruleFtoIRange},
+				{"R-DISPATCH-FAMILY", 30, ruleDispatchFamily},
+			},
+		},
+		{
 			ID: "C05", Title: "No input crashes or wedges the host; every failure is a Prolog error term",
 			Decides:    "panic classes visible in code shape (zero divisor, negative shift, uncomparable interface comparison, missing table row)",
 			NotDecided: "termination on arbitrary text, slice bounds in general, memory exhaustion",
